@@ -168,14 +168,13 @@ func (z *reader) Reset(r io.Reader, dict []byte) error {
 		}
 	}
 
-	if z.decompressor == nil {
-		if haveDict {
-			z.decompressor = flate.NewReaderDict(z.r, dict)
-		} else {
-			z.decompressor = flate.NewReader(z.r)
-		}
+	if haveDict {
+		// only the dictionary-capable inflater honours dict (flate.NewReader's Reset ignores it)
+		z.decompressor = flate.NewReaderDict(z.r, dict)
+	} else if z.decompressor == nil {
+		z.decompressor = flate.NewReader(z.r)
 	} else {
-		z.decompressor.(flate.Resetter).Reset(z.r, dict)
+		z.decompressor.(flate.Resetter).Reset(z.r, nil)
 	}
 	z.digest = adler32.New()
 	return nil
